@@ -70,6 +70,9 @@ def _numeq(i):
 
 NAMINGS = {
     'numeq': _numeq,
+    # frozensets that are pairwise INCOMPARABLE: hashable, '<' never raises but is only a partial order
+    # (subset), so sorting them silently yields no order at all
+    'fsets': lambda i: frozenset([i, 'k%d' % (i % 3)]),
     # small ints of both signs: -1, 1, -2, 2, ... (a negative int is a legal LIST INDEX: code that uses
     # an int state as a position does not fail on it, it silently reads another slot)
     'zigzag': lambda i: (-(i // 2) - 1) if i % 2 == 0 else (i // 2 + 1),
